@@ -21,6 +21,9 @@ Mutations == {[m |-> "set", x |-> t] : t \in TagSwaps}
              \cup {[m |-> "ins", x |-> t] : t \in {0, 78, 81, 86, 90, 255, 144, 73}}
              \cup {[m |-> "big", x |-> 0]}      \* overwrite with I x7f ff ff ff : a huge declared count / index
 
+(* long messages (lists of > 1024 elements): only their first octets, only count / index attacks *)
+LongMutations == {[m |-> "big", x |-> 0], [m |-> "inc", x |-> 1], [m |-> "set", x |-> 255], [m |-> "set", x |-> 86], [m |-> "del", x |-> 0]}
+
 Apply(b, p, mu) ==
   CASE mu.m = "set"   -> [b EXCEPT ![p] = mu.x]
     [] mu.m = "inc"   -> [b EXCEPT ![p] = (@ + mu.x) % 256]
@@ -35,7 +38,7 @@ vars == <<vi, p, mu, done>>
 Init == /\ vi \in 1..Len(Valid)
         /\ p \in (IF Len(Valid[vi].b) > 400 THEN 1..24      \* long messages: headers only
                   ELSE {q \in 1..Len(Valid[vi].b) : q % Stride = (vi % Stride)})
-        /\ mu \in Mutations
+        /\ mu \in (IF Len(Valid[vi].b) > 400 THEN LongMutations ELSE Mutations)
         /\ done = FALSE
 Next == ~done /\ done' = TRUE /\ UNCHANGED <<vi, p, mu>>
 Spec == Init /\ [][Next]_vars
